@@ -106,6 +106,14 @@ func CanonOp(o Op) string {
 	panic("op")
 }
 
+// CanonEnc: the encoding part of the canonical input (empty for the default encoding)
+func CanonEnc(o Op) string {
+	if len(o.Enc) == 0 && !o.Listed {
+		return ""
+	}
+	return fmt.Sprintf("~%v/%v", o.Enc, o.Listed)
+}
+
 func coqRows(rows []Row) string {
 	xs := make([]string, len(rows))
 	for i, r := range rows {
@@ -130,17 +138,27 @@ type Obs struct {
 	Kv    []KvRow
 	View  []Row
 	Refs  []uint64
+	Sent  []SentChunk // chunk references of the operation's first chunk-carrying request: decoded id, encoding
 }
 
 // Step applies the operation and collects the observables.
 func (w *World) Step(o Op) Obs {
 	class := w.Apply(o)
-	return Obs{Class: class, Sched: w.Scheduled(), Raw: w.DumpRaw(), Kv: w.DumpKv(), View: w.DumpView(), Refs: w.Refs()}
+	return Obs{Class: class, Sched: w.Scheduled(), Raw: w.DumpRaw(), Kv: w.DumpKv(), View: w.DumpView(), Refs: w.Refs(), Sent: w.Sent}
 }
 
 func CoqObs(b Obs) string {
 	return fmt.Sprintf("{| i_err := %s; i_sched := %s; i_state := mk_st %s %s; i_view := %s; i_refs := %s |}",
 		b.Class, nlist(b.Sched), coqRows(b.Raw), coqKv(b.Kv), coqRows(b.View), nlist(b.Refs))
+}
+
+// CoqSent: list (N * N) — (decoded chunk id, encoding 0 = both / 1 = fid only / 2 = string only)
+func CoqSent(b Obs) string {
+	xs := make([]string, len(b.Sent))
+	for i, c := range b.Sent {
+		xs[i] = fmt.Sprintf("(%d, %d)", c.Key, c.Enc)
+	}
+	return "([" + strings.Join(xs, "; ") + "]%N : list (N * N))"
 }
 
 func nlist(vs []uint64) string {
